@@ -455,45 +455,118 @@ class SpecSystem(explore.System):
         return problems
 
 
-def gc_cycles(ctx):
-    """Treespecs in reference cycles through their metadata are reclaimed by the collector."""
-    for shape in ('direct', 'in-list', 'in-dict', 'two-specs', 'via-child-spec'):
-        ctx.count()
-        w = World('custom-entries')
-        try:
-            h = Holder()
-            tree = w.CX([Leaf(0), [Leaf(1)]], meta=h)
-            spec = optree.tree_structure(tree, namespace='ns14')
-            if shape == 'direct':
-                h.spec = spec
-            elif shape == 'in-list':
-                h.spec = [spec, spec]
-            elif shape == 'in-dict':
-                h.spec = {'s': spec}
-            elif shape == 'two-specs':
-                h2 = Holder()
-                spec2 = optree.tree_structure(w.CX([Leaf(2)], meta=h2), namespace='ns14')
-                h.spec, h2.spec = spec2, spec
-                del spec2, h2
-            elif shape == 'via-child-spec':
-                h.spec = spec.compose(spec).child(0)
-            wr = weakref.ref(h)
-            del h, tree, spec
+class CallableHolder(Holder):
+    def __call__(self):
+        return []
+
+
+GC_CARRIERS = ('custom-meta', 'custom-entries', 'ddict-factory', 'dict-key', 'odict-key', 'ddict-key',
+               'namedtuple-class', 'iterator-root')
+GC_POSITIONS = ('root', 'in-list', 'in-custom', 'in-dict')
+GC_LINKS = ('spec', 'child-spec', 'composed-spec', 'list-of-specs')
+
+
+def gc_cases():
+    out = []
+    for carrier in GC_CARRIERS:
+        for arity in (0, 1, 2):
+            if carrier in ('dict-key', 'odict-key', 'ddict-key', 'custom-entries') and arity == 0:
+                continue
+            for pos in GC_POSITIONS:
+                for link in GC_LINKS:
+                    if carrier == 'iterator-root' and (pos != 'root' or link != 'spec'):
+                        continue
+                    out.append({'gc_cycle': carrier, 'arity': arity, 'position': pos, 'link': link})
+    return out
+
+
+def gc_cycle(ctx, c):
+    """A treespec reachable only through a reference cycle that passes through node metadata
+    (custom metadata / entries, default_factory, dict keys, namedtuple class) is reclaimed."""
+    from collections import namedtuple  # noqa: PLC0415
+
+    ctx.count()
+    ctx.cls(tuple(sorted(c.items())))
+    w = World('custom-entries')
+    try:
+        carrier, arity, pos, link = c['gc_cycle'], c['arity'], c['position'], c['link']
+        kids = [Leaf(i) for i in range(arity)]
+        h = CallableHolder()
+        if carrier == 'iterator-root':
+            box = [Leaf(0)]
+            it = optree.tree_iter(box)
+            box.append(it)  # the tree refers to its own iterator
+            hh = Holder()
+            box.append(hh)
+            wr = weakref.ref(hh)
+            next(it)
+            del box, it, hh
             gc.collect()
             if wr() is not None:
-                ctx.violation('gc-cycle', f'{PROP}:gc-cycle-not-collected', {'gc_cycle': shape},
-                              f'treespec in a reference cycle through its metadata ({shape}) survived gc.collect()')
-            ctx.outcome(f'gc-cycle:{shape}')
-        finally:
-            w.cleanup()
+                ctx.violation('gc-cycle', f'{PROP}:gc-cycle-not-collected', c, 'tree_iter in a cycle with its tree survived gc')
+            return
+        if carrier == 'custom-meta':
+            node = w.CX(kids, meta=h)
+        elif carrier == 'custom-entries':
+            class CE:
+                def __init__(self, ch):
+                    self.ch = ch
+            ents = tuple(CallableHolder() for _ in kids)
+            h = ents[0]
+            optree.register_pytree_node(CE, lambda o: (o.ch, None, ents), lambda m, ch: CE(list(ch)), namespace='ns14')
+            node = CE(kids)
+            w.extra_unreg = CE
+        elif carrier == 'ddict-factory':
+            node = defaultdict(h, {f'k{i}': k for i, k in enumerate(kids)})
+        elif carrier in ('dict-key', 'odict-key', 'ddict-key'):
+            keys = [CallableHolder() for _ in kids]
+            h = keys[-1]
+            items = list(zip(keys, kids))
+            node = dict(items) if carrier == 'dict-key' else OrderedDict(items) if carrier == 'odict-key' else defaultdict(None, items)
+        else:
+            NT = namedtuple('NTgc', [f'f{i}' for i in range(arity)])  # noqa: PYI024
+            NT.holder = h
+            node = NT(*kids)
+            del NT
+        tree = {'root': node, 'in-list': [Leaf(9), node], 'in-custom': w.CX([node, Leaf(9)]), 'in-dict': {'z': node}}[pos]
+        spec = optree.tree_structure(tree, namespace='ns14')
+        target = {'spec': spec, 'child-spec': spec.child(0) if spec.num_children else spec,
+                  'composed-spec': spec.compose(spec) if spec.num_leaves else spec,
+                  'list-of-specs': [spec, spec.one_level() or spec]}[link]
+        h.spec = target
+        wr = weakref.ref(h)
+        del h, tree, spec, node, target, kids
+        if carrier in ('dict-key', 'odict-key', 'ddict-key'):
+            del keys, items
+        if carrier == 'custom-entries':
+            optree.unregister_pytree_node(w.extra_unreg, namespace='ns14')
+            w.extra_unreg = None
+            del ents, CE
+        gc.collect()
+        if wr() is not None:
+            ctx.violation('gc-cycle', f'{PROP}:gc-cycle-not-collected', c,
+                          f'treespec in a reference cycle through {carrier} (arity {arity}, {pos}, {link}) survived gc.collect()')
+        ctx.outcome(f'gc-cycle:{carrier}')
+    finally:
+        if getattr(w, 'extra_unreg', None) is not None:
+            try:
+                optree.unregister_pytree_node(w.extra_unreg, namespace='ns14')
+            except Exception:  # noqa: BLE001
+                pass
+        w.cleanup()
+
+
+def gc_cycles(ctx):
+    for i, c in enumerate(gc_cases()):
+        if ctx.mine(i):
+            gc_cycle(ctx, c)
 
 
 def run_shard(ctx):
     hlen = 3 if ctx.tier == 'quick' else 4
     for sc in SCENARIOS:
         explore.all_histories(ctx, SpecSystem(sc), hlen, label=sc)
-    if ctx.shard == 0:
-        gc_cycles(ctx)
+    gc_cycles(ctx)
     preds = ['none', 'is_tuple']
     modes = ['sorted', 'ins_ns']
     e1.drive(ctx, ctx.tier, lambda tree, leaves, dsl, cfg: part_a(ctx, tree, leaves, dsl, cfg),
@@ -503,7 +576,7 @@ def run_shard(ctx):
 def replay(case, ctx):
     c = case['case']
     if 'gc_cycle' in c:
-        gc_cycles(ctx)
+        gc_cycle(ctx, c)
     elif 'history' in c:
         sysm = SpecSystem(c['label'])
         state = sysm.initial()
